@@ -183,7 +183,7 @@ func pfPrelude() []pfCase {
 	// callback variations
 	cbs := []pfStep{st("app.x.io", "/start-here", none, nil), st("app.x.io", "/second", none, nil)}
 	for _, k := range [][2]string{{"own", "own"}, {"stale-own", "own"}, {"other", "own"}, {"own", "other"}, {"same", "own"}, {"garbage", "own"}, {"own", "garbage"},
-		{"absent", "own"}, {"own", "absent"}, {"other-sid", "own"}, {"own", "other-sid"}, {"other-uri", "own"}, {"own", "other-uri"}, {"session", "session"}, {"otherkey", "own"}, {"own", "otherkey"}} {
+		{"absent", "own"}, {"own", "absent"}, {"other-sid", "own"}, {"own", "other-sid"}, {"other-uri", "own"}, {"own", "other-uri"}, {"own-respelled", "own"}, {"own", "own-respelled"}, {"session", "session"}, {"otherkey", "own"}, {"own", "otherkey"}} {
 		cbs = append(cbs, pfStep{Host: "app.x.io", StateKind: k[0], CsrfKind: k[1], Code: "c1"})
 	}
 	cbs = append(cbs,
@@ -228,6 +228,25 @@ func pfPrelude() []pfCase {
 		st("app.x.io", "/", S("app.x.io", func(s *pfSess) { s.Email = "x@evil.io" }), func(s *pfStep) { s.Proto = "https" }),
 		st("nope.x.io", "/", none, func(s *pfStep) { s.Proto = "https" }),
 	}})
+	// a group rule whose only name is blank (e.g. an empty template variable) is still a rule: it admits nobody
+	for _, gs := range [][]string{{""}, {" ", "\t"}, {"*", ""}, {"eng", ""}} {
+		bl := pfBaseCfg()
+		bl.Upstreams[0].Domains, bl.Upstreams[0].Groups = nil, gs
+		nobody := func(s *pfStep) { s.Profile = pfReply{Kind: "ok", Groups: []string{}} } // the directory lists the user in none of the asked groups
+		cases = append(cases, pfCase{Cfg: bl, Steps: []pfStep{
+			st("app.x.io", "/", none, nil),
+			func() pfStep {
+				s := pfStep{Host: "app.x.io", StateKind: "own", CsrfKind: "own", Code: "c1"}
+				nobody(&s)
+				pfDefaultAns(&s)
+				return s
+			}(),
+			st("app.x.io", "/", pfCookie{Kind: "jar"}, nobody),
+			st("app.x.io", "/", S("app.x.io", func(s *pfSess) { s.Valid = -10 }), nobody),
+			st("app.x.io", "/", S("app.x.io", func(s *pfSess) { s.Refresh = -10 }), nobody),
+			st("app.x.io", "/", S("app.x.io", func(s *pfSess) { s.Valid = -10; s.Groups = nil }), nobody),
+		}})
+	}
 	// two upstreams, same provider slug, different group rules; the user is in the first one's group only
 	ov := pfBaseCfg()
 	ov.Upstreams[0].Domains, ov.Upstreams[0].Groups = nil, []string{"eng"}
@@ -322,7 +341,7 @@ func init() {
 				u.Domains = [][]string{{"x.io"}, {"*"}, {"X.IO", "y.io"}}[rng.Intn(3)]
 			}
 			if m&4 != 0 {
-				u.Groups = [][]string{{"eng"}, {"*"}, {"eng", "ops"}}[rng.Intn(3)]
+				u.Groups = [][]string{{"eng"}, {"*"}, {"eng", "ops"}, {""}, {" "}, {"*", ""}, {"eng", ""}, {" eng"}}[rng.Intn(8)]
 			}
 			if m == 0 {
 				u.Domains = []string{"x.io"}
@@ -454,7 +473,7 @@ func init() {
 				c.Steps = append(c.Steps, pfStep{Host: host, Target: t1, Cookie: pfCookie{Kind: "none"}},
 					pfStep{Host: host, Target: t2, Cookie: pfCookie{Kind: "none"}})
 				ns := 3 + rng.Intn(5)
-				kinds := []string{"own", "own", "own", "stale-own", "other", "same", "garbage", "session", "absent", "otherkey", "other-sid", "other-uri"}
+				kinds := []string{"own", "own", "own", "stale-own", "other", "same", "garbage", "session", "absent", "otherkey", "other-sid", "other-uri", "own-respelled"}
 				for i := 0; i < ns; i++ {
 					s := pfStep{Host: host, StateKind: kinds[rng.Intn(len(kinds))], CsrfKind: kinds[rng.Intn(len(kinds))], Code: "c1"}
 					if s.CsrfKind == "same" || s.CsrfKind == "stale-own" {
